@@ -220,7 +220,11 @@ def laws(rng, tier, ctx):
         case = dict(tag='law-roundtrip', lines=['(tree items %s)' % T])
         items = tree_items(t)
         count += 4
-        if _plain(items_to_tree(items)) != t0:
+        try:
+            rebuilt = _plain(items_to_tree(items))
+        except Exception as e:
+            rebuilt = 'raised %s' % type(e).__name__
+        if rebuilt != t0:
             yield Finding('violation', case, 'items_to_tree(tree_items(t)) != t')
         if tree_keys(t) != [i[:-1] for i in items] or tree_values(t) != [i[-1] for i in items]:
             yield Finding('violation', case, 'tree_keys / tree_values are not the paths / leaves of tree_items in the same order')
@@ -237,8 +241,13 @@ def laws(rng, tier, ctx):
         u = build(u0, cls)
         st, su = snapshot(t), snapshot(u)
         case = dict(tag='law-update', lines=['(tree update %s %s %s %d)' % (T, enc(u0), enc(ig), cls)])
-        res = tree_update(t, u, ignore=ig) if ig else tree_update(t, u)
         count += 3
+        try:
+            res = tree_update(t, u, ignore=ig) if ig else tree_update(t, u)
+            idem = _plain(tree_update(t, t)) == t0 and _plain(tree_update(t, {})) == t0
+        except Exception as e:
+            yield Finding('violation', case, 'tree_update raised %s' % type(e).__name__)
+            continue
         if snapshot(t) != st or snapshot(u) != su:
             yield Finding('violation', case, 'tree_update modified an operand: t=%s u=%s' % (enc(_plain(t)), enc(_plain(u))))
             t, u = build(t0, cls), build(u0, cls)
@@ -247,7 +256,7 @@ def laws(rng, tier, ctx):
             yield Finding('violation', case, 'tree_update = %s, recursive merge = %s' % (enc(_plain(res)), enc(want)))
         if type(res) is not type(t):
             yield Finding('violation', case, 'tree_update returned a %s for a %s' % (type(res).__name__, type(t).__name__))
-        if _plain(tree_update(t, t)) != t0 or _plain(tree_update(t, {})) != t0:
+        if not idem:
             yield Finding('violation', dict(tag='law-update-idem', lines=['(tree update %s %s (L) %d)' % (T, T, cls)]), 'tree_update(t, t) != t or tree_update(t, {}) != t')
     # tree_to_table / table_to_tree inverse on rows with unique paths, patterns with 1..4 wildcards
     m = 200 if tier == 'quick' else 5000
